@@ -94,6 +94,59 @@ theorem argmaxFirst_spec (l : List Rat) (hne : l ≠ []) :
     have := argmaxAux_spec vs 1 0 v [v] rfl (by omega) rfl (by simp)
     simpa [argmaxFirst] using this
 
+/-- tie rule: every entry BEFORE the index returned is strictly smaller than the entry returned -/
+theorem argmaxAux_first (vs : List Rat) : ∀ (i bi : Nat) (bv : Rat) (pre : List Rat),
+    pre.length = i → bi < i → pre[bi]? = some bv → (∀ v ∈ pre, v ≤ bv) →
+    (∀ k w, k < bi → pre[k]? = some w → w < bv) →
+    ∀ k w m, k < argmaxAux vs i bi bv → (pre ++ vs)[k]? = some w →
+      (pre ++ vs)[argmaxAux vs i bi bv]? = some m → w < m := by
+  induction vs with
+  | nil =>
+    intro i bi bv pre _ _ hb _ hfirst k w m hk hw hm
+    simp only [argmaxAux, List.append_nil] at hk hw hm
+    rw [hb] at hm
+    simp only [Option.some.injEq] at hm
+    subst hm
+    exact hfirst k w hk hw
+  | cons v vs ih =>
+    intro i bi bv pre hlen hbi hb hmax hfirst k w m
+    unfold argmaxAux
+    have happ : pre ++ v :: vs = (pre ++ [v]) ++ vs := by simp
+    split
+    · next hlt =>
+      rw [happ]
+      apply ih (i + 1) i v (pre ++ [v]) (by simp [hlen]) (by omega)
+      · rw [List.getElem?_append_right (by omega)]; simp [hlen]
+      · intro w hw
+        rcases List.mem_append.mp hw with hw | hw
+        · exact le_trans (hmax w hw) (le_of_lt hlt)
+        · simp only [List.mem_singleton] at hw; rw [hw]
+      · intro k' w' hk' hw'
+        rw [List.getElem?_append_left (by omega)] at hw'
+        exact lt_of_le_of_lt (hmax w' (List.mem_of_getElem? hw')) hlt
+    · next hlt =>
+      rw [happ]
+      apply ih (i + 1) bi bv (pre ++ [v]) (by simp [hlen]) (by omega)
+      · rw [List.getElem?_append_left (by omega)]; exact hb
+      · intro w hw
+        rcases List.mem_append.mp hw with hw | hw
+        · exact hmax w hw
+        · simp only [List.mem_singleton] at hw; rw [hw]; exact not_lt.mp hlt
+      · intro k' w' hk' hw'
+        rw [List.getElem?_append_left (by omega)] at hw'
+        exact hfirst k' w' hk' hw'
+
+/-- **`argmaxFirst` is `idxmax`**: the entry it addresses is maximal and every earlier entry is STRICTLY smaller, i.e. it
+    is the first index attaining the maximum -/
+theorem argmaxFirst_first (l : List Rat) (k : Nat) (w m : Rat) (hk : k < argmaxFirst l) (hw : l[k]? = some w)
+    (hm : l[argmaxFirst l]? = some m) : w < m := by
+  cases l with
+  | nil => simp [argmaxFirst] at hk
+  | cons v vs =>
+    have := argmaxAux_first vs 1 0 v [v] rfl (by omega) rfl (by simp) (by intro k w hk; omega) k w m
+    simp only [argmaxFirst] at hk hm
+    exact this hk (by simpa using hw) (by simpa using hm)
+
 /-! ### `minList` -/
 
 theorem minList_spec (l : List Rat) (m : Rat) (h : minList l = some m) : m ∈ l ∧ ∀ v ∈ l, m ≤ v := by
